@@ -9,12 +9,12 @@ Has(e, f) == f \in DOMAIN e
 Rej(clause) == PrintT(<<"REJECT", clause, l>>)
 Check(cond, clause) == IF cond THEN TRUE ELSE Rej(clause)
 
-\* the culture renders ':' or '/' as '.' or ',' and that separator follows an optional fraction: not delimited after all
+\* the culture renders ':' or '/' as text beginning with '.' or ',' and that separator follows an optional fraction: not delimited after all
 SepAmbiguous(e) ==
   \E i \in 1..(Len(e.tokens) - 1) :
      /\ e.tokens[i] \in OptFrac
-     /\ \/ e.tokens[i + 1] = ":" /\ e.time_sep \in {<<46>>, <<44>>}
-        \/ e.tokens[i + 1] = "/" /\ e.date_sep \in {<<46>>, <<44>>}
+     /\ \/ e.tokens[i + 1] = ":" /\ Len(e.time_sep) > 0 /\ e.time_sep[1] \in {46, 44}
+        \/ e.tokens[i + 1] = "/" /\ Len(e.date_sep) > 0 /\ e.date_sep[1] \in {46, 44}
 
 \* does the law "parse(format(v)) = v" apply to this event?
 Applies(e) ==
